@@ -304,8 +304,8 @@ def work(idx):
         t_sp = time.time()
         rng_s = random.Random(f"{cfg['seed']}:special:{item.key}")
         sp = []
-        signal.signal(signal.SIGALRM, _special_timeout)
-        signal.alarm(90)
+        signal.signal(signal.SIGVTALRM, _special_timeout)
+        signal.setitimer(signal.ITIMER_VIRTUAL, 60)       # CPU seconds of this worker, independent of machine load
         try:
             if S.comparisons_of(ex):
                 sp += S.boundary_stream(item, ex, specs, plan, rng_s, pick_branch)
@@ -319,11 +319,11 @@ def work(idx):
             sp += S.ordering_stream(item, ex, specs, plan, rng_s, pick_branch, cfg["order_pairs"])
             sp += S.target_value_stream(item, ex, specs, plan, rng_s, pick_branch)
         except SpecialTimeout:
-            sp.append({"stream": "special", "status": "skipped", "why": "time budget (90 s) of the special tuples exhausted"})
+            sp.append({"stream": "special", "status": "skipped", "why": "CPU-time budget (60 s) of the special tuples exhausted"})
         except Exception as e:  # pylint: disable=broad-except
             sp.append({"stream": "special", "status": "error", "why": f"{type(e).__name__}: {e}", "tb": traceback.format_exc()[-800:]})
         finally:
-            signal.alarm(0)
+            signal.setitimer(signal.ITIMER_VIRTUAL, 0)
         out["special"] = {"n": len(sp), "by_stream": {}, "bad": [r for r in sp if r.get("status") in ("mismatch", "law-fail", "error")][:4],
             "sample": next((r for r in sp if r.get("status") == "ok"), None), "t": round(time.time() - t_sp, 2)}
         for r in sp:
@@ -405,7 +405,7 @@ def run(ctx):
     t0 = time.time()
     items, nmods, import_errors = X.catalogue()
     _ITEMS = items
-    _CFG = {"seed": ctx.seed, "tuples": ctx.pick(3, 20), "seq_lengths": S.SEQ_LENGTHS, "order_pairs": ctx.pick(1, 3)}
+    _CFG = {"seed": ctx.seed, "tuples": ctx.pick(3, 20), "seq_lengths": ctx.pick((1, 2, 100, 101), S.SEQ_LENGTHS), "order_pairs": ctx.pick(1, 3)}
     ctx.log(f"catalogue: {len(items)} calculate_* functions in {nmods} modules ({time.time() - t0:.1f}s)")
 
     n_corpus = run_corpus(ctx, items)
